@@ -12,6 +12,8 @@ import (
 	"golang.org/x/tools/go/ssa"
 )
 
+type callgraphEdge = callgraph.Edge
+
 const nDynCommandFn = "dyn:getoptions.CommandFn"
 const nDynModifyFn = "dyn:getoptions.ModifyFn"
 
